@@ -304,3 +304,40 @@ V("C08", "values-last-attribute-only", "detect", "attributes keyed by FriendlyNa
   (RA, "			assertionInfo.Values[attribute.Name] = attribute", "			assertionInfo.Values[attribute.FriendlyName] = attribute"))
 V("C08", "benign-get-rewrite", "silent", "Get rewritten with an early return",
   ("attribute.go", "	if v, ok := vals[k]; ok && len(v.Values) > 0 {\n		return string(v.Values[0].Value)\n	}\n	return \"\"\n}\n\n//GetSize", "	v, ok := vals[k]\n	if !ok || len(v.Values) == 0 {\n		return \"\"\n	}\n	return string(v.Values[0].Value)\n}\n\n//GetSize"))
+
+# ---------------- C14
+V("C14", "sign-raw-relaystate", "detect", "raw relay state signed without escaping",
+  (BR, "		buf.WriteString(url.QueryEscape(k) + \"=\" + url.QueryEscape(v))", "		if k == \"RelayState\" {\n			buf.WriteString(k + \"=\" + v)\n			continue\n		}\n		buf.WriteString(url.QueryEscape(k) + \"=\" + url.QueryEscape(v))"),
+  needs="relay state containing characters that percent-encode")
+V("C14", "order-swapped", "detect", "SigAlg before RelayState in the signing string",
+  (BR, "		params = [][2]string{{\"SAMLRequest\", samlRequest}, {\"RelayState\", relayState}, {\"SigAlg\", sigAlg}}", "		params = [][2]string{{\"SAMLRequest\", samlRequest}, {\"SigAlg\", sigAlg}, {\"RelayState\", relayState}}"),
+  needs="signed redirect with a relay state")
+V("C14", "url-encoding", "detect", "URL-safe base64 for the Signature",
+  (BR, "		qs.Add(\"Signature\", base64.StdEncoding.EncodeToString(rawSignature))\n	}\n\n	//Here the parameters may appear in any order.\n	parsedUrl.RawQuery = qs.Encode()\n	return parsedUrl.String(), nil\n}\n\nfunc (sp *SAMLServiceProvider) BuildAuthURLFromDocument",
+       "		qs.Add(\"Signature\", base64.URLEncoding.EncodeToString(rawSignature))\n	}\n\n	//Here the parameters may appear in any order.\n	parsedUrl.RawQuery = qs.Encode()\n	return parsedUrl.String(), nil\n}\n\nfunc (sp *SAMLServiceProvider) BuildAuthURLFromDocument"))
+V("C14", "close-not-checked", "detect", "DEFLATE writer only flushed, never closed",
+  (BR, "	err = fw.Close()\n	if err != nil {\n		return \"\", fmt.Errorf(\"flate.Writer Close error: %v\", err)\n	}\n\n	qs := parsedUrl.Query()\n\n	qs.Add(\"SAMLRequest\", base64.StdEncoding.EncodeToString(buf.Bytes()))\n\n	if relayState != \"\" {\n		qs.Add(\"RelayState\", relayState)\n	}\n\n	if sp.SignAuthnRequests",
+       "	err = fw.Flush()\n	if err != nil {\n		return \"\", fmt.Errorf(\"flate.Writer Close error: %v\", err)\n	}\n\n	qs := parsedUrl.Query()\n\n	qs.Add(\"SAMLRequest\", base64.StdEncoding.EncodeToString(buf.Bytes()))\n\n	if relayState != \"\" {\n		qs.Add(\"RelayState\", relayState)\n	}\n\n	if sp.SignAuthnRequests"),
+  needs="strict inflater at the IdP")
+V("C14", "logout-to-sso", "detect", "logout redirect built on the SSO endpoint",
+  (BR, "	parsedUrl, err := url.Parse(sp.IdentityProviderSLOURL)", "	parsedUrl, err := url.Parse(sp.IdentityProviderSSOURL)"))
+V("C14", "query-dropped", "detect", "existing IdP query parameters dropped",
+  (BR, "	qs := parsedUrl.Query()\n\n	qs.Add(\"SAMLRequest\", base64.StdEncoding.EncodeToString(buf.Bytes()))\n\n	if relayState != \"\" {\n		qs.Add(\"RelayState\", relayState)\n	}\n\n	if sp.SignAuthnRequests",
+       "	qs := url.Values{}\n\n	qs.Add(\"SAMLRequest\", base64.StdEncoding.EncodeToString(buf.Bytes()))\n\n	if relayState != \"\" {\n		qs.Add(\"RelayState\", relayState)\n	}\n\n	if sp.SignAuthnRequests"),
+  needs="IdP endpoint with its own query parameters")
+V("C14", "relaystate-always", "detect", "empty RelayState parameter emitted",
+  (BR, "	if relayState != \"\" {\n		qs.Add(\"RelayState\", relayState)\n	}\n\n	if binding == BindingHttpRedirect {", "	qs.Add(\"RelayState\", relayState)\n\n	if binding == BindingHttpRedirect {"))
+V("C14", "logout-sign-other-ctx", "detect", "logout SigAlg from a second SigningContext call result mixed with another signer",
+  (BR, "		if rawSignature, err = ctx.SignString(ss); err != nil {", "		if rawSignature, err = sp.SigningContext().SignString(ss); err != nil {"))
+
+# ---------------- C17
+V("C17", "drop-rlock", "detect", "fast path reads the cached context without the read lock",
+  (SA, "	sp.signingContextMu.RLock()\n	signingContext := sp.signingContext\n	sp.signingContextMu.RUnlock()\n", "	signingContext := sp.signingContext\n"))
+V("C17", "clock-default-in-operation", "detect", "an operation installs a default clock on the provider",
+  (VA, "	warningInfo := &WarningInfo{}\n	now := sp.Clock.Now()", "	warningInfo := &WarningInfo{}\n	if sp.Clock == nil {\n		sp.Clock = dsig.NewRealClock()\n	}\n	now := sp.Clock.Now()"),
+  (VA, "	\"github.com/russellhaering/gosaml2/types\"\n)", "	\"github.com/russellhaering/gosaml2/types\"\n	dsig \"github.com/russellhaering/goxmldsig\"\n)"))
+V("C17", "last-response-remembered", "detect", "provider remembers the last validated response in a package variable",
+  (DR, "const (\n	defaultMaxDecompressedResponseSize = 5 * 1024 * 1024\n)", "const (\n	defaultMaxDecompressedResponseSize = 5 * 1024 * 1024\n)\n\nvar lastResponse *types.Response"),
+  (DR, "	err = sp.Validate(decodedResponse)\n	if err != nil {\n		return nil, err\n	}\n\n	return decodedResponse, nil\n}\n\n// DecodeUnverifiedBaseResponse", "	err = sp.Validate(decodedResponse)\n	if err != nil {\n		return nil, err\n	}\n\n	lastResponse = decodedResponse\n	return decodedResponse, nil\n}\n\n// DecodeUnverifiedBaseResponse"))
+V("C17", "unlock-forgotten", "detect", "write lock not released on the panic-free path",
+  (SA, "	sp.signingContextMu.Lock()\n	defer sp.signingContextMu.Unlock()\n", "	sp.signingContextMu.Lock()\n"))
